@@ -605,6 +605,25 @@ func TestKnown_C07_LeftoverHeartbeatLoopDeposesNextTerm(t *testing.T) {
 
 var kvSlow func(k *natsmock.MockKeyValue)
 
+// nopanic.nil_invoke(Entry)@attemptPriorityTakeover: a store may answer (nil, nil) for an absent key (the library's
+// own NATS adapter passes a nil entry through); every other reader guards for it.
+func TestKnown_C13_TakeoverOnNilEntry(t *testing.T) {
+	cfg := kCfg()
+	cfg.Priority = 5
+	cfg.AllowPriorityTakeover = true
+	e, kv := kElection(t, cfg)
+	kv.SetGetFunc(func(key string) (natsmock.Entry, error) { return nil, nil })
+	own, _ := json.Marshal(leadershipPayload{ID: "A", Token: "x", Priority: 5})
+	var rec interface{}
+	func() {
+		defer func() { rec = recover() }()
+		_ = e.attemptPriorityTakeover(own)
+	}()
+	if rec != nil {
+		t.Fatalf("VIOLATION-REPRODUCED: attemptPriorityTakeover panics when the store answers (nil, nil): %v", rec)
+	}
+}
+
 // C07.claim_published_last@becomeLeader: the claim (isLeader) was stored before the revision of the write that
 // backs it. handleWatchEvent reads both without the mutex: a late notification of the previous owner's record that
 // lands between the two stores passes "names another instance and is newer than my revision" and deposes the leader
